@@ -1,5 +1,19 @@
 package sym
 
-import "net/textproto"
+import (
+	"math"
+	"net/textproto"
+)
 
 func textprotoCanonical(s string) string { return textproto.CanonicalMIMEHeaderKey(s) }
+
+
+func mathBits(f float64) uint64    { return math.Float64bits(f) }
+func mathMax(a, b float64) float64 { return math.Max(a, b) }
+func mathMin(a, b float64) float64 { return math.Min(a, b) }
+func mathPow(a, b float64) float64 { return math.Pow(a, b) }
+func mathFloor(a float64) float64  { return math.Floor(a) }
+func mathCeil(a float64) float64   { return math.Ceil(a) }
+func mathSqrt(a float64) float64   { return math.Sqrt(a) }
+func mathLog2(a float64) float64   { return math.Log2(a) }
+func mathAbs(a float64) float64    { return math.Abs(a) }
